@@ -246,7 +246,70 @@ def r19_6(ctx, rule2=None):
            "html5ever encoding.rs extract_a_character_encoding_from_a_meta_element")
 
 
+def r19_7(ctx):
+    """an indicator is due for EVERY meta start tag that ends up as an inserted HTML meta element.  The indicator is decided in the
+    'in head' rule for meta (R19.1); so no other insertion mode may insert an element for a meta start tag itself - it hands the
+    token to the 'in head' rules (or drops it)"""
+    from lib import dispatchcmp
+    cur = nf_common.area_current(ctx, "html_tree_builder")
+    ks = [k for k in cur if k.endswith("rules::TreeBuilder<Handle,Sink>::step")]
+    if len(ks) != 1 or cur[ks[0]]["kind"] != "paths":
+        raise AnchorMissing("TreeBuilder::step has no path normal form")
+    cells = cur[ks[0]]["cells"]
+    modes = set()
+    for c in cells:
+        for g in c["guards"]:
+            if g.startswith("p1 matches "):
+                modes.update(a.strip() for a in g[len("p1 matches "):].split("|"))
+    n = 0
+    for mode in sorted(modes):
+        if mode == "InHead":
+            continue
+        sig = dispatchcmp.signature(cells, mode, "StartTag", "meta")
+        bad = None
+        for free, acts, ret in sig:
+            n += 1
+            for a, args in acts:
+                if a in ("self.insert_element_for", "self.insert_and_pop_element_for", "self.create_formatting_element_for") and args and re.match(r"p2\.0\b", str(args[0])):
+                    bad = "mode %s inserts an element for a meta start tag itself (%s) instead of handing the token to the 'in head' rules: the meta element is in the tree but no encoding indicator is raised for it" % (mode, a)
+                if a == "self.insert_element" and any(re.match(r"p2\.0\.name", str(x)) for x in args):
+                    bad = "mode %s inserts an element for a meta start tag itself (insert_element)" % mode
+        ctx.ob("R19.7", "meta-inserted-only-by-in-head/" + mode, bad is None, bad or "a meta start tag is delegated, reprocessed or ignored", "html5ever tree_builder rules.rs " + mode)
+    ctx.floor("R19.7", "meta-handlings", n, 20)
+
+
+def r19_8(ctx):
+    """Tag::get_attribute(name): the value of the FIRST attribute (source order) in no namespace with that local name - whatever
+    the value is.  `charset=""` is a charset attribute: it makes the element a charset declaration (with label "") and takes
+    precedence over http-equiv / content"""
+    key, pcs = nfq.cells(ctx, "html_tokenizer_misc", "tokenizer::interface::Tag::get_attribute")
+    bad = None
+    hits = 0
+    for pc in nfq.feasible(pcs):
+        names = nfq.names(pc)
+        begins = [a for a in names if a.startswith("loop-begin for _ in ")]
+        if begins and not re.fullmatch(r"loop-begin for _ in self\.attrs(\.iter\(\))?", begins[0]):
+            bad = "the attributes are searched as '%s', not in source order from the first" % begins[0][20:80]
+        for g in pc["guards"]:
+            if re.search(r"\.value\b", g):
+                bad = "whether an attribute counts depends on its value (%s): an attribute with an empty value is an attribute" % g[:70]
+            elif not re.search(r"\.name\.(ns|local)\b", g):
+                bad = "the search tests %s" % g[:70]
+        if str(pc["ret"]).startswith("Some("):
+            hits += 1
+            if not re.fullmatch(r"Some\(item\.value(\.clone\(\))?\)", str(pc["ret"])):
+                bad = "the answer is %s, not the attribute's own value" % str(pc["ret"])[:60]
+            g = pc["guards"]
+            if not (any(v and re.match(r"item\.name\.ns matches ATOM_NAMESPACE_$", k) for k, v in g.items()) and any(v and re.match(r"\(item\.name\.local == p1\)|\(p1 == item\.name\.local\)", k) for k, v in g.items())):
+                bad = "an attribute is returned without its namespace being empty and its local name equal to the one asked for"
+    ctx.ob("R19.8", "get_attribute-first-by-name-whatever-the-value", bad is None and hits >= 1, bad or "first attribute with no namespace and the local name; its value as it is", "html5ever tokenizer interface Tag::get_attribute")
+
+
 def run(ctx):
+    ctx.rule("R19.8", "Tag::get_attribute finds an attribute by name only: an empty charset / content / http-equiv value is still that attribute")
+    ctx.guard("R19.8", "get_attribute", lambda: r19_8(ctx))
+    ctx.rule("R19.7", "no insertion mode other than 'in head' inserts the element for a meta start tag: every inserted HTML meta element passed the indicator decision")
+    ctx.guard("R19.7", "meta-only-in-head", lambda: r19_7(ctx))
     ctx.rule("R19.6", "the meta content scanner examines its input as bytes only")
     ctx.guard("R19.6", "bytes", lambda: r19_6(ctx))
     ctx.rule("R19.5", "the byte sets of the meta charset scanner (whitespace skipping, end of an unquoted value) are the standard's")
